@@ -27,6 +27,9 @@ func init() {
 }
 
 func runC05(c *report.Ctx) {
+	checkWatchdogIndependent(c)
+	checkSupervisorKill(c) // "every process terminated": the kill reaches the whole process group
+	checkResponseAlwaysCancellable(c)
 	checkErrorIdentity(c, scopeFrontEnd, frontEndDeadCases, 8)
 	c.Clause("1 timer and timeout case")
 	checkInvokeTimer(c)
